@@ -191,7 +191,12 @@ def u_draws(rec, spec, n):
                 det, sto = ref.next_states({**st, **ch}, t)
                 for s, nodes in sto:
                     L = cols[s][r1]
-                    us = uni_apps(L)
+                    # the draw's own uniform: the label of period t+1 may also contain the uniforms of earlier
+                    # periods through the agent's period-t state (they select the row); those are excluded
+                    earlier = set()
+                    for cell in list(st.values()) + list(ch.values()):
+                        earlier |= {u.get_id() for u in uni_apps(cell)}
+                    us = [u for u in uni_apps(L) if u.get_id() not in earlier]
                     tag = f"{s}][path{pi},t={t},agent={i}"
                     rec.prove(f"one-uniform-per-draw[{tag}]", len(us) == 1, [], replay=rows_replay)
                     if len(us) != 1:
